@@ -2,6 +2,7 @@ package main
 
 import (
 	"fmt"
+	"go/token"
 	"go/types"
 	"reflect"
 	"sort"
@@ -23,9 +24,10 @@ func init() {
 		Meta: propMeta{Level: "other", Assumptions: append([]string{"net/rpc + jsonrpc deliver the argument and reply values they are given (library summary)"}, commonAssumptions...),
 			Explanation: "Decides: C20.err (in both retry wrappers `call` the returned error can be nil only on a path where the RPC's own error was tested nil — never after exhausting the attempts or after a failed attempt; `retries` is only ever a positive constant; every proxy method returns a nil error only after call(...) returned nil; SubmitTx turns ack==false into an error), " +
 				"C20.pass (client methods hand call() their own parameter and return the reply variable call() filled; server methods hand the handler the decoded argument and store the handler's result into the reply, returning the handler's error; InmemProxy passes through; SocketAppProxyServer.SubmitTx forwards the decoded slice), " +
+				"C20.done (every asynchronous rpc call is waited for on its own completion channel: the done argument of rpc.Client.Go is nil or made in the same attempt, and every receive from a chan *rpc.Call is on the Done channel of the call issued in that attempt — a channel shared by the attempts of the retry loop lets a late completion of a timed-out attempt end the next wait with a nil error and an empty reply). " +
 				"C20.shape (every field of every type crossing the JSON-RPC boundary is exported and untagged, or is a listed cache field; payload fields are []byte / [][]byte, i.e. base64 on the wire — binary safe). " +
 				"NOT decided: ordering per client connection, behaviour of net/rpc under drops at arbitrary instants, duplicate delivery on retry after a timeout."},
-		Rules: []ruleFunc{c20err, c20pass, c20shape},
+		Rules: []ruleFunc{c20err, c20pass, c20shape, c20done},
 	})
 }
 
@@ -453,4 +455,148 @@ func c20shape(p *Prog, r *Report) {
 		ts := f.Type().String()
 		r.Check(ts == "[]byte" || ts == "[][]byte", rule, pf[1]+"."+pf[2]+":bytes", p.pos(f.Pos()), "", "binary-safe on the wire (base64)", pf[1]+"."+pf[2]+" has type "+ts+": arbitrary bytes would not survive JSON (invalid UTF-8 is replaced)")
 	}
+}
+
+// C20.done: a reply belongs to the attempt that asked for it. Every asynchronous rpc call
+// ((*rpc.Client).Go) signals completion on ITS OWN channel: the done argument is nil (the library
+// allocates one per call) or a channel made in the same loop iteration, and every receive from a
+// `chan *rpc.Call` in the function is on the Done channel of that call (or that per-iteration
+// channel). A channel shared by the attempts of a retry loop lets the late completion of a timed-out
+// attempt end the wait of the next one: the caller reads an error-free, still empty reply.
+func c20done(p *Prog, r *Report) {
+	const rule = "C20.done"
+	r.Rule(rule, 1, "each asynchronous rpc call is waited for on its own completion channel (no channel shared between retry attempts)")
+	goM := named("net/rpc.Client.Go")
+	isCallChan := func(t types.Type) bool {
+		ch, ok := t.Underlying().(*types.Chan)
+		if !ok {
+			return false
+		}
+		pt, ok := ch.Elem().(*types.Pointer)
+		if !ok {
+			return false
+		}
+		n, ok := pt.Elem().(*types.Named)
+		return ok && n.Obj().Pkg() != nil && n.Obj().Pkg().Path() == "net/rpc" && n.Obj().Name() == "Call"
+	}
+	n := 0
+	for _, fn := range p.Mod {
+		if !strings.Contains(fnPkgPath(fn), "/src/proxy") && !strings.Contains(fnPkgPath(fn), "/src/babble") {
+			continue
+		}
+		gos := callsIn(fn, goM)
+		if len(gos) == 0 {
+			continue
+		}
+		loops := naturalLoops(fn)
+		sameIter := func(a, b *ssa.BasicBlock) bool {
+			la, lb := innermostLoop(loops, a), innermostLoop(loops, b)
+			if la == nil && lb == nil {
+				return true
+			}
+			return la != nil && lb != nil && la.head == lb.head
+		}
+		var own []ssa.Value // channels that belong to one attempt
+		for i, g := range gos {
+			n++
+			args := g.Common().Args
+			done := args[len(args)-1]
+			ok := false
+			if c, isC := unwrap(done).(*ssa.Const); isC && c.IsNil() {
+				ok = true
+			} else if flowsFromLocal(done, func(x ssa.Value) bool {
+				mc, isMk := x.(*ssa.MakeChan)
+				if isMk && sameIter(mc.Block(), g.Block()) && innermostLoop(loops, g.Block()) != nil {
+					own = append(own, mc)
+					return true
+				}
+				// outside any loop a channel made in the function serves one call only if there is one Go
+				if isMk && innermostLoop(loops, g.Block()) == nil && len(gos) == 1 {
+					own = append(own, mc)
+					return true
+				}
+				return false
+			}) {
+				ok = true
+			}
+			r.Check(ok, rule, fmt.Sprintf("%s:Go#%d:done-channel", fn.Name(), i), p.ipos(g), fnName(fn), "completion channel is the call's own",
+				"the completion channel handed to rpc.Client.Go outlives the attempt (made outside the retry loop / shared): the completion of a timed-out attempt is taken for the completion of the next one, and the caller returns success with an empty reply")
+		}
+		// receives
+		k := 0
+		checkRecv := func(at ssa.Instruction, ch ssa.Value) {
+			if !isCallChan(ch.Type()) {
+				return
+			}
+			k++
+			ok := false
+			if fv, base := fieldOf(ch); fv != nil && fv.Name() == "Done" {
+				for _, g := range gos {
+					if gv, isV := g.(ssa.Value); isV && mustBeValue(base, gv, 0) && sameIter(g.Block(), at.Block()) {
+						ok = true
+					}
+				}
+			}
+			for _, o := range own {
+				if flowsFromLocal(ch, func(x ssa.Value) bool { return x == o }) {
+					ok = true
+				}
+			}
+			r.Check(ok, rule, fmt.Sprintf("%s:recv#%d:own-call", fn.Name(), k), p.ipos(at), fnName(fn), "waits on the Done channel of the call issued in this attempt", "waits for completion on a channel that is not the Done channel of the call issued in this attempt")
+		}
+		for _, b := range fn.Blocks {
+			for _, in := range b.Instrs {
+				switch x := in.(type) {
+				case *ssa.Select:
+					for _, st := range x.States {
+						if st.Dir == types.RecvOnly {
+							checkRecv(x, st.Chan)
+						}
+					}
+				case *ssa.UnOp:
+					if x.Op == token.ARROW {
+						checkRecv(x, x.X)
+					}
+				}
+			}
+		}
+	}
+	if n == 0 {
+		r.Note("%s: no asynchronous rpc call (rpc.Client.Go) in the proxies", rule)
+		r.Ok(rule, "no-async-calls", "-", "", "the proxies use synchronous rpc calls only")
+	}
+}
+
+// mustBeValue: v is want on every path (conversions, single-assignment locals, phis whose every
+// operand is want).
+func mustBeValue(v, want ssa.Value, depth int) bool {
+	v = unwrap(v)
+	if v == want {
+		return true
+	}
+	if depth > 4 {
+		return false
+	}
+	switch t := v.(type) {
+	case *ssa.Phi:
+		for _, e := range t.Edges {
+			if !mustBeValue(e, want, depth+1) {
+				return false
+			}
+		}
+		return len(t.Edges) > 0
+	case *ssa.UnOp:
+		if t.Op == token.MUL {
+			if al, ok := t.X.(*ssa.Alloc); ok {
+				st := capturedStores(al)
+				for _, sv := range st {
+					if !mustBeValue(sv, want, depth+1) {
+						return false
+					}
+				}
+				return len(st) > 0
+			}
+		}
+	}
+	return false
 }
